@@ -137,6 +137,74 @@ func runLedgerRT(t *testing.T, seed int64, log *traceLog) {
 		wg.Wait()
 		time.Sleep(250 * time.Millisecond) // the callbacks of this phase finish before the next installation
 	}
+	// last phase: a permission and a channel are installed, traffic flows both ways, and the client refreshes with
+	// lifetime 0.  From the moment the success response is in the client's hands (logged by the goroutine that reads
+	// it) the allocation is gone: nothing sent after that moment arrives, however slow the operator's callbacks are.
+	if !request(w.authed("u1", txid(), stun.MethodChannelBind, proto.ChannelNumber(0x4000), proto.PeerAddress{IP: pa.IP, Port: pa.Port})) {
+		t.Fatal("ledger driver: ChannelBind failed")
+	}
+	log.add(map[string]any{"e": "Ev", "kind": "chan+", "key": "16384"})
+	log.add(map[string]any{"e": "Ev", "kind": "perm+", "key": "A"})
+	var wg sync.WaitGroup
+	stop := time.Now().Add(900 * time.Millisecond)
+	refreshAt := time.Now().Add(150 * time.Millisecond)
+	wg.Add(2)
+	go func() {
+		defer wg.Done()
+		sent := false
+		for i := 0; time.Now().Before(stop); i++ {
+			if !sent && time.Now().After(refreshAt) {
+				sent = true
+				w.sendFromClient(c, w.authed("u1", txid(), stun.MethodRefresh, proto.Lifetime{}))
+			}
+			id, id2 := fmt.Sprintf("pz-%d", i), fmt.Sprintf("cz-%d", i)
+			log.add(map[string]any{"e": "PeerSend", "ip": "A", "id": id})
+			_, _ = peer.WriteTo([]byte(id+"|peer"), relay)
+			cd := proto.ChannelData{Number: 0x4000, Data: []byte(id2 + "|client")}
+			cd.Encode()
+			log.add(map[string]any{"e": "ChanSend", "n": "16384", "id": id2})
+			w.sendFromClient(c, cd.Raw)
+			time.Sleep(5 * time.Millisecond)
+		}
+	}()
+	go func() {
+		defer wg.Done()
+		for time.Now().Before(stop.Add(100 * time.Millisecond)) {
+			for _, pk := range w.clients[c].Drain() {
+				var data []byte
+				if proto.IsChannelData(pk.Data) {
+					cd := proto.ChannelData{Raw: pk.Data}
+					if cd.Decode() == nil {
+						data = cd.Data
+					}
+				} else {
+					m := &stun.Message{Raw: pk.Data}
+					if m.Decode() != nil {
+						continue
+					}
+					if m.Type == stun.NewType(stun.MethodRefresh, stun.ClassSuccessResponse) {
+						log.add(map[string]any{"e": "Gone", "ips": []string{"A"}, "chans": []string{"16384"}})
+
+						continue
+					}
+					var d proto.Data
+					if d.GetFrom(m) == nil {
+						data = d
+					}
+				}
+				if i := strings.IndexByte(string(data), '|'); i > 0 {
+					log.add(map[string]any{"e": "Arrive", "at": "client", "id": string(data[:i])})
+				}
+			}
+			for _, pk := range peer.Drain() {
+				if i := strings.IndexByte(string(pk.Data), '|'); i > 0 {
+					log.add(map[string]any{"e": "Arrive", "at": "peer", "id": string(pk.Data[:i])})
+				}
+			}
+			time.Sleep(500 * time.Microsecond)
+		}
+	}()
+	wg.Wait()
 }
 
 // TestLedgerRT records VERIF_NTRACES executions into VERIF_TRACE_OUT.
